@@ -13,7 +13,7 @@ place=$(head -1 $demo_src | sed -n 's#^// place in: *##p' | tr -d ' \r')
 demo_dst=$place/zz_seeded_demo_test.go
 # normalise: remove any demo copies the seeder left, then put ours
 git status --short | awk '$1=="??" && $2 ~ /_test\.go$/ {print $2}' | xargs -r rm -f
-git checkout -q -- . ; git apply _seeded/patch.diff || { echo "patch does not apply" | tee -a $log; exit 1; }
+git checkout -q -- . ; git checkout -q --detach $(git -C /repo rev-parse HEAD) ; git apply _seeded/patch.diff || { echo "patch does not apply" | tee -a $log; exit 1; }
 cp $demo_src $demo_dst
 echo "== build with patch" >> $log; go build ./... >> $log 2>&1 || { echo "BUILD FAILS" | tee -a $log; exit 1; }
 echo "== demo with patch (must fail)" >> $log
